@@ -14,7 +14,13 @@ ACTIONS = ["R", "W", "RW", "RW1C", "RW1S", "ResRAW0", "ResRAWL", "ResR0WA", "Res
 
 
 def shape_width(sh):
-    return 3 if sh[0] == "e" else sh[1]
+    if sh[0] == "e":
+        return 3
+    if sh[0] == "arr":
+        return sh[1] * sh[2]
+    if sh[0] == "struct":
+        return sum(sh[1])
+    return sh[1]
 
 
 def make_shape(sh):
@@ -24,12 +30,42 @@ def make_shape(sh):
         return unsigned(sh[1])
     if sh[0] == "s":
         return signed(sh[1])
+    if sh[0] == "arr":
+        from amaranth.lib import data
+        return data.ArrayLayout(unsigned(sh[1]), sh[2])
+    if sh[0] == "struct":
+        from amaranth.lib import data
+        return data.StructLayout({f"m{i}": unsigned(w) for i, w in enumerate(sh[1])})
 
     class E3(aenum.Enum, shape=3):
         A = 0
         B = 5
         C = 7
     return E3
+
+
+def make_init(sh, init):
+    """Constructor argument for `init` (aggregate shapes need a sequence / mapping)."""
+    if sh[0] == "arr":
+        return list(init)
+    if sh[0] == "struct":
+        return {f"m{i}": v for i, v in enumerate(init)}
+    return init
+
+
+def init_value(sh, init):
+    """Packed unsigned value of an init argument."""
+    if init is None:
+        return 0
+    if sh[0] == "arr":
+        return sum((v & ((1 << sh[1]) - 1)) << (i * sh[1]) for i, v in enumerate(init))
+    if sh[0] == "struct":
+        out, off = 0, 0
+        for w, v in zip(sh[1], init):
+            out |= (v & ((1 << w) - 1)) << off
+            off += w
+        return out
+    return init & ((1 << shape_width(sh)) - 1)
 
 
 def leaves_of(node, path=()):
@@ -76,6 +112,10 @@ class FieldsWorld(World):
     # ------------------------------------------------------------------------------------------
     def _gen_shape(self, rng):
         k = rng.below(20)
+        if rng.chance(0.08):
+            return ["arr", rng.range(1, 4), rng.range(1, 4)]
+        if rng.chance(0.05):
+            return ["struct", [rng.range(1, 4) for _ in range(rng.range(1, 3))]]
         if k == 0:
             return ["u", rng.choice([12, 16, 17, 31, 32, 33])]
         if k == 1:
@@ -112,7 +152,11 @@ class FieldsWorld(World):
         sh = self._gen_shape(rng) if rng.chance(0.5) else ["u", rng.range(1, 3)]
         w = shape_width(sh)
         init = None
-        if act in ("RW", "RW1C", "RW1S") and w and rng.chance(0.6):
+        if act in ("RW", "RW1C", "RW1S") and sh[0] == "arr":
+            init = [rng.bits(sh[1]) if rng.chance(0.5) else 0 for _ in range(sh[2])]
+        elif act in ("RW", "RW1C", "RW1S") and sh[0] == "struct":
+            init = [rng.bits(w_) if rng.chance(0.5) else 0 for w_ in sh[1]]
+        elif act in ("RW", "RW1C", "RW1S") and w and rng.chance(0.6):
             if sh[0] == "e":
                 init = rng.choice([0, 5, 7])
             elif sh[0] == "s":
@@ -298,11 +342,11 @@ class FieldsWorld(World):
         cls = getattr(action, act)
         kw = {}
         if config.get("init") is not None and act in ("RW", "RW1C", "RW1S"):
-            kw["init"] = config["init"]
+            kw["init"] = make_init(sh, config["init"])
         a = hw.construct(cls, make_shape(sh), **kw)
         sim = hw.build_sim(hw.make_top(a))
         signed = sh[0] == "s"
-        stor0 = (int(config.get("init") or 0) & m) if act in ("RW", "RW1C", "RW1S") else 0
+        stor0 = (init_value(sh, config.get("init")) & m) if act in ("RW", "RW1C", "RW1S") else 0
 
         def sv(v):
             return v - (1 << w) if (signed and w and v >> (w - 1)) else v
@@ -407,7 +451,8 @@ class FieldsWorld(World):
         if config["kind"] == "action":
             sh = config["shape"]
             if sh[0] != "u":
-                yield dict(config, shape=["u", shape_width(sh)], init=None), ops
+                yield dict(config, shape=["u", shape_width(sh)],
+                           init=init_value(sh, config.get("init")) or None), ops
             if sh[0] == "u" and sh[1] > 1:
                 yield dict(config, shape=["u", sh[1] - 1], init=None), ops
             if config.get("init") is not None:
